@@ -16,6 +16,7 @@
 #include <pistache/peer.h>
 #include <pistache/transport.h>
 
+#include <algorithm>
 #include <cstring>
 #include <ctime>
 #include <iomanip>
@@ -480,23 +481,26 @@ namespace Pistache::Http
             if (size == 0)
                 return Final;
 
-            message->body_.reserve(size);
             StreamCursor::Token chunkData(cursor);
-            const ssize_t available = cursor.remaining();
+            const ssize_t available   = cursor.remaining();
+            const ssize_t missingData = size - alreadyAppendedChunkBytes;
 
-            if (available + alreadyAppendedChunkBytes < size + 2)
+            if (available - 2 < missingData)
             {
-                cursor.advance(available);
-                message->body_.append(chunkData.rawText(), available);
-                alreadyAppendedChunkBytes += available;
+                // take the data bytes that are there; the CRLF that ends the chunk is
+                // not data and stays in the buffer until both of its bytes arrived
+                const ssize_t dataBytes = std::min(available, missingData);
+                cursor.advance(dataBytes);
+                message->body_.append(chunkData.rawText(), dataBytes);
+                alreadyAppendedChunkBytes += dataBytes;
                 return Incomplete;
             }
-            cursor.advance(size - alreadyAppendedChunkBytes);
+            cursor.advance(missingData);
 
             // trailing EOL
             cursor.advance(2);
 
-            message->body_.append(chunkData.rawText(), size - alreadyAppendedChunkBytes);
+            message->body_.append(chunkData.rawText(), missingData);
 
             return Complete;
         }
